@@ -60,7 +60,7 @@ Ltac wstep :=
      Pos.add Pos.succ Z.of_nat Pos.of_succ_nat List.length
      not_exist_text no_support_text mark_clause req_body body_of s2b app Bytes.bind Ascii.N_of_ascii Ascii.N_of_digits N.add N.mul N.double N.succ_double Pos.mul].
 
-Ltac same := lazymatch goal with |- ?a = ?b => first [constr_eq a b; reflexivity | fail 1 "the two sides differ"] end.
+Ltac same := lazymatch goal with |- ?a = ?b => first [constr_eq a b; reflexivity | timeout 30 reflexivity | fail 1 "the two sides differ"] end.
 
 Section Walk.
   Variable c : cfg.
